@@ -28,6 +28,21 @@ def run_schedule(text, names, sig, sched, pastify=False, kind='ct'):
     """sched: {var: cuts}. Variables are fed together: update k carries the k-th batch of every variable
     that still has one (all variables have the same number of batches in an aligned schedule)."""
     m = drive.Mon(kind, {'text': text, 'vars': names}, pastify=pastify)
+    if 'interleaved' in sched:
+        # asynchronous sources: update k carries the next batch of some variables only; the others are omitted
+        # from the call or passed with an empty batch
+        outs = []
+        for i, u in enumerate(sched['interleaved']):
+            args = []
+            for k in names:
+                if k in u:
+                    a, b = u[k]
+                    args.append([k, [[float(t), float(v)] for (t, v) in sig[k][a:b]]])
+                elif i == 0 or not u or sched['absent'] == 'empty' or (sched['absent'] == 'mixed' and (i + len(k)) % 2):
+                    # (the first call names every variable: before it the monitor holds no batch at all for them)
+                    args.append([k, []])
+            outs.append(m.update(*args))
+        return outs
     per = dict((k, batches(sig[k], sched[k])) for k in names)
     nb = max(len(b) for b in per.values())
     outs = []
@@ -51,7 +66,8 @@ class C05(Prop):
             'schedule with >=2 updates.')
     assumptions = ['the concatenation is read as a step function in which a later sample wins at an equal stamp and '
                    'which covers [first stamp, last stamp]; nothing is demanded outside what a schedule covers',
-                   'empty batches and omitted variables are not generated']
+                   'interleaved-source schedules: a variable without new samples is omitted from the call or passed with '
+                   'an empty batch; the first call names every variable (possibly with an empty batch)']
     floors = {'quick': (100, 30), 'thorough': (2000, 500)}
     must_reach = ['abstract_dense_time_online_interpreter:AbstractDenseTimeOnlineInterpreter.update']
     quick_cases = 2500
@@ -77,7 +93,11 @@ class C05(Prop):
                 f = lang.gen_formula(rng, lang.dense_cfg(rng, future=False))
         names = lang.variables(f) or [c.vars[0]]
         if len(names) > 1 and rng.random() < 0.35:
-            return self.gen_independent(rng, f, names, pastify)
+            case = self.gen_independent(rng, f, names, pastify)
+            if rng.random() < 0.5:
+                sig = sig_from_json(case['signals'])
+                case['interleaved'] = [self.gen_interleaved(rng, sig, names) for _ in range(3)]
+            return case
         n = rng.randint(2, 8)
         base = lang.gen_signal(rng, n=n, start=Fr(0) if rng.random() < 0.8 else None)
         sig = dict((k, [(t, rng.choice(lang.SMALL)) for (t, _) in base]) for k in names)
@@ -89,7 +109,25 @@ class C05(Prop):
         indep = None
         if len(names) > 1 and rng.random() < 0.5:
             indep = dict((k, sorted(rng.sample(range(1, n), rng.randint(1, n - 1)))) for k in names)
-        return {'formula': f, 'signals': sig_text(sig), 'schedules': scheds, 'indep': indep, 'pastify': pastify}
+        case = {'formula': f, 'signals': sig_text(sig), 'schedules': scheds, 'indep': indep, 'pastify': pastify}
+        if rng.random() < 0.35:
+            case['interleaved'] = [self.gen_interleaved(rng, sig, names) for _ in range(3)]
+        return case
+
+    def gen_interleaved(self, rng, sig, names):
+        per = {}
+        for k in names:
+            nk = len(sig[k])
+            cuts = sorted(rng.sample(range(1, nk), rng.randint(0, nk - 1))) if nk > 1 else []
+            per[k] = list(zip([0] + cuts, cuts + [nk]))
+        ups = []
+        while any(per.values()):
+            live = [k for k in names if per[k]]
+            take = rng.sample(live, 1 if rng.random() < 0.6 else rng.randint(1, len(live)))
+            ups.append(dict((k, list(per[k].pop(0))) for k in take))
+            if rng.random() < 0.25:
+                ups.append({})                                   # an idle poll: no source has anything new
+        return {'interleaved': ups, 'absent': rng.choice(['omit', 'omit', 'empty', 'mixed'])}
 
     def gen_independent(self, rng, f, names, pastify):
         """Every variable has its own sampling instants (and possibly its own first stamp); every update()
@@ -146,13 +184,16 @@ class C05(Prop):
             scheds.append(('per-variable', case['indep']))
         for sc in case.get('indep_list') or []:
             scheds.append(('per-variable', sc))
+        for sc in case.get('interleaved') or []:
+            scheds.append(('interleaved', sc))
+            v.info['class:interleaved-sources'] = 1
         if case.get('indep_list'):
             v.info['class:independent-stamps'] = 1
             v.nontrivial = lang.has_stateful(f) and any(any(c for c in sc.values()) for sc in case['indep_list'])
         covered = []
         for label, sched in scheds:
             desc = '%s cuts=%s' % (label, sched[names[0]] if label == 'aligned' else sched)
-            self.__dict__.setdefault('_scheds', set()).add((len(sig[names[0]]), repr(sorted(sched.items()))))
+            self.__dict__.setdefault('_scheds', set()).add((len(sig[names[0]]), repr(sorted(sched.items(), key=repr))))
             v.info['schedules'] = v.info.get('schedules', 0) + 1
             try:
                 outs = run_schedule(text, names, sig, sched, pastify)
